@@ -7,10 +7,10 @@ from spec import step_model as M
 
 PROPERTY = "C03"
 BOUNDS = {
-    "quick": "(ii) well-formed lines: node sym [10,99] (known or unknown node, sleeping or not), child sym [10,99] or 255 (known or unknown child), all 5 commands, internal/stream type sym [-2,99999] with payload '1', internal types {battery, version, heartbeat, sketch name} x a 24-text payload class list (numbers, non-numbers, version texts, empty, huge), set/req/presentation type sym [0,9] with symbolic |p|<=1; version known (5 versions) or unknown; (i) malformed lines: field count sym [0,8], one numeric position replaced by one of 10 class texts or an out-of-range integer; after every error the same gateway handles '0;255;3;0;9;x' normally; (iv) StreamTransport.read: symbolic bytes |b|<=3 through a duck-typed reader (decode totality), and the real asyncio.StreamReader over the alphabet {0a,0d,3b,41,80,c3,a9,ff} |b|<=3 with/without EOF",
+    "quick": "(ii) well-formed lines: node sym [10,99] (known or unknown node, sleeping or not), child sym [10,99] or 255 (known or unknown child), all 5 commands, internal/stream type sym [-2,99999] with payload '1', internal types {battery, version, heartbeat, sketch name} x a 24-text payload class list (numbers, non-numbers, version texts, empty, huge), set/req/presentation type sym [0,9] with symbolic |p|<=1; version known (5 versions) or unknown; (i) malformed lines: field count sym [0,8], one numeric position replaced by one of 10 class texts or an out-of-range integer; after every error the same gateway handles '0;255;3;0;9;x' normally; (iv) StreamTransport.read: byte strings over 23 UTF-8 class representatives |b|<=2 and over an 8-byte alphabet |b|<=3 through a duck-typed reader (decode totality; CrossHair cannot keep bytes symbolic through decode, so these are enumerated), and the real asyncio.StreamReader over the alphabet {0a,0d,3b,41,80,c3,a9,ff} |b|<=3 with/without EOF",
     "thorough": "as quick with ids sym [0,255], |b|<=4, plus a non-deciding hunt: raw symbolic line |line|<=6 (300 s)",
 }
-REALISED = ["payload class list for internal messages (float(), int(), AwesomeVersion are executed on concrete texts)", "bytes fed to the real StreamReader are realised at bytearray.extend"]
+REALISED = ["byte strings for decode totality are enumerated over class alphabets", "payload class list for internal messages (float(), int(), AwesomeVersion are executed on concrete texts)", "bytes fed to the real StreamReader are realised at bytearray.extend"]
 STUBS = ["RecTransport", "duck-typed reader object for decode totality", "symbolic maps", "__repr__ -> constant"]
 ASSUMPTIONS = ["library error = subclass of AIOMySensorsError", "internal payloads outside the class list are covered only through the symbolic |p|<=1 payload of the other commands and the thorough hunt"]
 MUST_REACH = ["msg", "lib:InvalidMessageError", "lib:UnsupportedMessageError", "lib:MissingNodeError", "stream-line", "lib:TransportReadError"]
@@ -41,7 +41,8 @@ def partitions(tier):
                     parts.append(dict(ids, name="wf-%s-cmd%d" % (tag, cmd), fn="sym_wellformed", version=v, known=known, cmd=cmd,
                                       budget=600 if q else 3000, cost=3))
         parts.append({"name": "malformed-%s" % v, "fn": "sym_malformed", "version": v, "budget": 500 if q else 2000, "cost": 4})
-    parts.append({"name": "decode-duck", "fn": "sym_decode", "maxlen": 3 if q else 4, "budget": 500 if q else 3000, "cost": 5})
+    parts.append({"name": "decode-duck-classes", "fn": "sym_decode", "alphabet": "utf8classes", "maxlen": 2 if q else 3, "budget": 500 if q else 3000, "cost": 5})
+    parts.append({"name": "decode-duck-small", "fn": "sym_decode", "alphabet": "small", "maxlen": 3 if q else 4, "budget": 500 if q else 3000, "cost": 5})
     for eof in (0, 1):
         parts.append({"name": "streamreader-eof%d" % eof, "fn": "sym_streamreader", "maxlen": 3 if q else 4, "eof": eof, "budget": 500 if q else 3000, "cost": 5})
     if not q:
@@ -154,7 +155,9 @@ def sym_decode(inp, part):
     transport error."""
     from aiomysensors.exceptions import TransportError
 
-    data = inp.bytes("b", part["maxlen"])
+    alpha = UTF8_CLASSES if part["alphabet"] == "utf8classes" else ALPHABET
+    k = inp.pick("len", part["maxlen"] + 1)
+    data = bytes(alpha[inp.pick("b%d" % i, len(alpha))] for i in range(k))
     tr = _transport()
     tr.reader = DuckReader(data)
     try:
@@ -171,6 +174,8 @@ def sym_decode(inp, part):
 
 
 ALPHABET = [0x0A, 0x0D, 0x3B, 0x41, 0x80, 0xC3, 0xA9, 0xFF]
+# one representative per UTF-8 byte class boundary (ASCII, continuation ranges, 2/3/4-byte leads, invalid leads)
+UTF8_CLASSES = [0x00, 0x0A, 0x41, 0x7F, 0x80, 0x8F, 0x90, 0x9F, 0xA0, 0xA9, 0xBF, 0xC0, 0xC2, 0xC3, 0xDF, 0xE0, 0xE1, 0xED, 0xEF, 0xF0, 0xF4, 0xF5, 0xFF]
 
 
 def sym_streamreader(inp, part):
